@@ -649,7 +649,7 @@ def gen(rng, tier):
                 else:
                     c['t'] = -2
                 cases.append(c)
-    # a model WITHOUT periods (kept finding: SolutionError vs IndexError), and spans too short for the lags
+    # a model WITHOUT periods (SolutionError from both since fix e0867c1), and spans too short for the lags
     for n0 in (0, 1):
         for er in ('raise', 'skip'):
             cases.append({'kind': 'run', 'keep': True, 'prog': p0, 'script': script_of(p0), 'n': n0, 'entry': 'solve', 'start': None, 'end': None,
@@ -1592,7 +1592,7 @@ def oracle(case, obs):
         return fails                                       # outside the option lattice both engines document
     if n == 0 and case['entry'] == 'solve':
         if py['out'][:2] != f['out'][:2]:
-            bad('solve|empty-span|SolutionError-vs-IndexError', 'solve() of a model without periods: Python engine %s, Fortran engine %s' % (py['out'], f['out']))
+            bad('solve|empty-span|mismatch', 'solve() of a model without periods (SolutionError from both since fix e0867c1): Python engine %s, Fortran engine %s' % (py['out'], f['out']))
         return fails
     ps = positions_of(case, obs)
     if any(not (0 <= p < n) for p in ps) or (case['entry'] != 'solve' and not (-n <= case['t'] < n)):
@@ -1609,14 +1609,8 @@ def oracle(case, obs):
             bad('_evaluate|infeasible-t|IndexError-vs-wraparound',
                 '_evaluate(t) at a period without room for the lags/leads: Fortran engine %s, Python engine %s (reads wrap around)' % (fo, pyo))
         return fails
-    if (case['entry'] == 'solve' and o['offset'] != 0 and o['errors'] != 'raise' and o['min_iter'] <= o['max_iter']
-            and any(not (0 <= p + o['offset'] < n) for p in ps)
-            and (not infeasible or min(i_ for i_, p in enumerate(ps) if not (0 <= p + o['offset'] < n)) < min(i_ for i_, p in enumerate(ps) if p in infeasible))):
-        # the template keeps going after an offset error when error_control is not 'raise'; the wrapper raises afterwards
-        if pyo[:2] == ['raise', 'IndexError'] and fo[:2] == ['raise', 'IndexError'] and (py['vals'] != f['vals']):
-            bad('solve|offset-out-of-span|later-periods-solved',
-                'solve(offset=%d, errors=%r): both engines raise IndexError, but the Fortran engine has already solved the later periods and stored their values' % (o['offset'], o['errors']))
-        return fails
+    # (solve() with an offset that leaves the span: since fix b027373 the template stops there whatever `errors` is, so the case
+    #  goes through the general comparison below like every other)
     # ---- finite regime only ("on all data for which values stay finite")
     ref = obs['pyl'] if obs['pyl'] is not None else py
     finite = py['finite'] and not obs['interm_nonfinite'] and all(_fin(x) for r in f['vals'] for x in r) and all(_fin(x) for r in ref['vals'] for x in r)
